@@ -1,5 +1,5 @@
 (* C08 -- chart-state scoring equals left-to-right scoring.  Proofs: LM/ChartProofs.v *)
-From Coq Require Import ZArith List Bool.
+From Coq Require Import ZArith List Bool Lia.
 From Kenlm Require Import LM.Defs LM.Query LM.QueryProofs LM.Chart LM.ChartProofs.
 Import ListNotations.
 Local Open Scope Z_scope.
@@ -106,3 +106,25 @@ Theorem C08_subsume_is_concatenation : forall n T M, (2 <= n)%nat -> TInv n T M 
   rs_finish n (mkrs (l_ptrs l') r' (l_full l') (snd (rs_finish n (flat n T rs_init us)) + snd (rs_finish n (flat n T rs_init ws)) + adj)) =
   rs_finish n (flat n T rs_init (us ++ ws)).
 Proof. intros n T M Hn I Hr Hx us ws Hu Hw adj l' r' HS. exact (subsume_flat n Hn T M I Hr Hx us ws Hu Hw adj l' r' HS). Qed.
+
+(* RevealAfter (seen from the fragment on the left) and RevealBefore (seen from the fragment on the right), revealing
+   the whole neighbour at once, accumulate exactly the whole minus the parts.  (Revealing in several steps, seen > 0, is
+   decided by differential execution and the whole-minus-parts oracle: no theorem.) *)
+Theorem C08_reveal_whole_minus_parts : forall n T M, (2 <= n)%nat -> TInv n T M ->
+  (forall k e, T k = Some e -> e_rest e = e_prob e) ->
+  (forall k e, T k = Some e -> e_ext e = true -> (2 <= length k)%nat -> exists x, T (x :: k) <> None) ->
+  forall us ws, Forall (known T) us -> Forall (known T) ws ->
+  let A := rs_finish n (flat n T rs_init us) in
+  let B := rs_finish n (flat n T rs_init ws) in
+  let whole := snd (rs_finish n (flat n T rs_init (us ++ ws))) in
+  fst (fst (reveal_after n T false (c_left (fst A)) (c_right (fst A)) (c_left (fst B)) 0)) = whole - snd A - snd B /\
+  fst (fst (reveal_before n T false (c_right (fst A)) 0 (l_full (c_left (fst A))) (c_left (fst B)) (c_right (fst B)))) = whole - snd A - snd B.
+Proof.
+  intros n T M Hn I Hr Hx us ws Hu Hw A B whole.
+  rewrite (reveal_after_is_subsume n T false (c_left (fst A)) (c_right (fst A)) (c_left (fst B)) (c_right (fst B))).
+  rewrite (proj1 (reveal_before_is_subsume n T false (c_left (fst A)) (c_right (fst A)) (c_left (fst B)) (c_right (fst B)))).
+  destruct (subsume n T false (c_left (fst A)) (c_right (fst A)) (c_left (fst B)) (c_right (fst B))) as [[adj l'] r'] eqn:ES.
+  pose proof (subsume_flat n Hn T M I Hr Hx us ws Hu Hw adj l' r' ES) as HF.
+  apply (f_equal snd) in HF. cbn [fst snd] in *. unfold rs_finish at 1 in HF. cbn [snd mkrs rs_prob] in HF.
+  unfold whole, A, B. split; lia.
+Qed.
